@@ -18,6 +18,7 @@ pub fn world() -> World {
         assumptions: &[
             "BufRead::consume is only called with amt <= fill_buf().len() (the std contract, and what unix.rs does)",
             "a frames_drop call is itself a frame delimiter (bytes queued before it and after it belong to different frames)",
+            "Read/BufRead contracts: read() == 0 into a non-empty buffer and an empty fill_buf() mean the end of the data, so they are legal only when len() == 0",
         ],
         rule: "one run = one interleaving of producer ops (write n, flush, clear_but_last) and consumer ops (read n, fill_buf+consume k, consume_with ok/err) on one IOQueue, then a full drain; non-trivial = at least two chunks coexisted or a partial consume happened; distinct = distinct (op kind, size class, result class) sequence",
         runs: |_, tier| match tier {
